@@ -144,6 +144,7 @@ class _Normalizer:
             self._each_function(m, self._short_circuit_forms)
             self._each_function(m, self._record_rows)
             self._each_function(m, self._record_locals)
+            self._each_function(m, self._closure_factories)
             self._each_function(m, self._memo_elision)
             self._each_function(m, self._guard_identity)
             for rnd in range(5):
@@ -184,6 +185,8 @@ class _Normalizer:
             # (a dispatch through a table of one-expression factories leaves calls of those factories behind)
             self._each_function(m, self._inline_pure_everywhere)
             self._each_function(m, self._prune_constant_tests)
+            self._each_function(m, self._dict_displays)
+            self._each_function(m, self._copy_propagate)
             self._each_function(m, self._data_driven)
             self._each_function(m, self._display_algebra)
             self._each_function(m, self._copy_propagate_locals_once)
@@ -620,6 +623,191 @@ class _Normalizer:
                 break
 
     # ------------------------------------------------------------------ 9b. algebra of displays
+    def _closure_factories(self, fnode, cls, local):
+        """``enc, dec = _codec(ctx)`` where the new helper ``_codec`` binds a few locals to simple expressions of its parameters,
+        defines one-expression functions over them and returns those functions: every ``enc(x)`` / ``dec(x)`` in this function reads as
+        the expression of the nested function, with the helper's parameters, its locals and the nested function's own parameters
+        replaced.  The targets must be bound by that statement only and used only as the function of calls."""
+        me = self
+
+        def subst(e, env):
+            class S(ast.NodeTransformer):
+                def visit_Name(self_, n):
+                    if isinstance(n.ctx, ast.Load) and n.id in env:
+                        return ast.copy_location(copy.deepcopy(env[n.id]), n)
+                    return n
+            return S().visit(copy.deepcopy(e))
+        for blk in _blocks(fnode):
+            i = 0
+            while i < len(blk):
+                st = blk[i]
+                i += 1
+                if not (isinstance(st, ast.Assign) and len(st.targets) == 1 and isinstance(st.value, ast.Call)
+                        and isinstance(st.value.func, ast.Name) and not st.value.keywords):
+                    continue
+                tg = st.targets[0]
+                names = [tg.id] if isinstance(tg, ast.Name) else [t.id for t in tg.elts] if isinstance(tg, ast.Tuple) and all(
+                    isinstance(t, ast.Name) for t in tg.elts) else None
+                if not names:
+                    continue
+                F = me.m.functions.get(st.value.func.id)
+                if F is None or not me.repo.is_helper(F) or F.node is fnode:
+                    continue
+                a = F.node.args
+                if a.vararg or a.kwarg or a.kwonlyargs or a.defaults or len(a.args) + len(a.posonlyargs) != len(st.value.args) \
+                        or not all(_is_simple_or_const(x) for x in st.value.args):
+                    continue
+                env = {p.arg: x for p, x in zip(list(a.posonlyargs) + list(a.args), st.value.args)}
+                nested: Dict[str, ast.FunctionDef] = {}
+                ret = None
+                ok = True
+                for b in _body(F.node):
+                    if isinstance(b, ast.Assign) and len(b.targets) == 1 and isinstance(b.targets[0], ast.Name) and _is_simple_or_const(b.value):
+                        env[b.targets[0].id] = subst(b.value, env)
+                    elif isinstance(b, ast.FunctionDef) and not b.decorator_list:
+                        body_ = _body(b)
+                        ga = b.args
+                        if len(body_) == 1 and isinstance(body_[0], ast.Return) and body_[0].value is not None and not (
+                                ga.vararg or ga.kwarg or ga.kwonlyargs or ga.defaults or ga.posonlyargs):
+                            nested[b.name] = b
+                        else:
+                            ok = False
+                    elif isinstance(b, ast.Return) and b.value is not None:
+                        ret = b.value
+                    else:
+                        ok = False
+                if not ok or ret is None:
+                    continue
+                rnames = [ret.id] if isinstance(ret, ast.Name) else [e.id for e in ret.elts] if isinstance(ret, ast.Tuple) and all(
+                    isinstance(e, ast.Name) for e in ret.elts) else None
+                if not rnames or len(rnames) != len(names) or any(r not in nested for r in rnames):
+                    continue
+                live = [n_ for n_ in names if n_ != '_']
+                # each target: one binding, loads only as the function of a call
+                good = True
+                for n_ in live:
+                    stores = [y for y in ast.walk(fnode) if isinstance(y, ast.Name) and y.id == n_ and isinstance(y.ctx, (ast.Store, ast.Del))]
+                    loads = [y for y in ast.walk(fnode) if isinstance(y, ast.Name) and y.id == n_ and isinstance(y.ctx, ast.Load)]
+                    calls = [y for y in ast.walk(fnode) if isinstance(y, ast.Call) and isinstance(y.func, ast.Name) and y.func.id == n_
+                             and not y.keywords and not any(isinstance(z, ast.Starred) for z in y.args)]
+                    if len(stores) != 1 or len(loads) != len(calls):
+                        good = False
+                if not good:
+                    continue
+                bind = {n_: nested[r] for n_, r in zip(names, rnames)}
+
+                class C(ast.NodeTransformer):
+                    def visit_Call(self_, n):
+                        n = self_.generic_visit(n)
+                        if isinstance(n.func, ast.Name) and n.func.id in bind and n.func.id != '_':
+                            g = bind[n.func.id]
+                            if len(g.args.args) == len(n.args):
+                                env2 = dict(env)
+                                env2.update({p.arg: x for p, x in zip(g.args.args, n.args)})
+                                return ast.copy_location(subst(_body(g)[0].value, env2), n)
+                        return n
+                C().visit(fnode)
+                blk.remove(st)
+                i -= 1
+                if not blk:
+                    blk.append(ast.Pass())
+                me.stats['closure_factories'] = me.stats.get('closure_factories', 0) + 1
+        ast.fix_missing_locations(fnode)
+
+    def _dict_displays(self, fnode, cls, local):
+        """* ``{'a': x, **d}`` with ``d`` a local bound once, directly before, to a dict display with constant keys (and used nowhere
+          else) -> the merged display (later keys win, as in Python);
+        * ``for k, v in {'a': x, 'b': y}.items(): BODY`` (constant keys, values names / attribute reads / constants, no break /
+          continue in BODY, BODY not rebinding what the values read) -> BODY once per item, in display order, with k and v bound."""
+        me = self
+
+        def const_keys(d) -> bool:
+            return isinstance(d, ast.Dict) and all(isinstance(k, ast.Constant) for k in d.keys)
+        for blk in _blocks(fnode):
+            i = 0
+            while i + 1 < len(blk):
+                st, nxt = blk[i], blk[i + 1]
+                if isinstance(st, ast.Assign) and len(st.targets) == 1 and isinstance(st.targets[0], ast.Name) and const_keys(st.value) \
+                        and all(_is_simple_or_const(v) or (isinstance(v, ast.Subscript) and _is_simple(v.value)) for v in st.value.values):
+                    nm = st.targets[0].id
+                    uses = [y for y in ast.walk(fnode) if isinstance(y, ast.Name) and y.id == nm]
+                    read_ = {y.id for v in st.value.values for y in ast.walk(v) if isinstance(y, ast.Name)}
+                    spreads = []
+                    for later in blk[i + 1:]:
+                        spreads = [d for d in ast.walk(later) if isinstance(d, ast.Dict) and any(
+                            k is None and isinstance(v, ast.Name) and v.id == nm for k, v in zip(d.keys, d.values))]
+                        if spreads or any(isinstance(y, ast.Name) and (y.id == nm or (y.id in read_ and isinstance(y.ctx, (ast.Store, ast.Del))))
+                                          for y in ast.walk(later)):
+                            break
+                    if len(uses) == 2 and len(spreads) == 1:
+                        d = spreads[0]
+                        keys, vals = [], []
+                        for k, v in zip(d.keys, d.values):
+                            if k is None and isinstance(v, ast.Name) and v.id == nm:
+                                for k2, v2 in zip(st.value.keys, st.value.values):
+                                    keys.append(k2)
+                                    vals.append(v2)
+                            else:
+                                keys.append(k)
+                                vals.append(v)
+                        # later entries replace earlier ones with the same constant key
+                        seen_, mk, mv = {}, [], []
+                        for k, v in zip(keys, vals):
+                            if isinstance(k, ast.Constant) and k.value in seen_:
+                                mv[seen_[k.value]] = v
+                            else:
+                                if isinstance(k, ast.Constant):
+                                    seen_[k.value] = len(mk)
+                                mk.append(k)
+                                mv.append(v)
+                        d.keys, d.values = mk, mv
+                        del blk[i]
+                        me.stats['dict_displays'] = me.stats.get('dict_displays', 0) + 1
+                        continue
+                i += 1
+        for blk in _blocks(fnode):
+            i = 0
+            while i < len(blk):
+                st = blk[i]
+                if isinstance(st, ast.For) and not st.orelse and isinstance(st.iter, ast.Call) and isinstance(st.iter.func, ast.Attribute) \
+                        and st.iter.func.attr in ('items', 'iteritems') and not st.iter.args and const_keys(st.iter.func.value) \
+                        and 0 < len(st.iter.func.value.keys) <= 12 and isinstance(st.target, ast.Tuple) and len(st.target.elts) == 2 \
+                        and all(isinstance(t, ast.Name) for t in st.target.elts) \
+                        and all(_is_simple_or_const(v) or (isinstance(v, ast.Subscript) and _is_simple(v.value)) for v in st.iter.func.value.values) \
+                        and not any(isinstance(y, (ast.Break, ast.Continue)) for b in st.body for y in ast.walk(b)):
+                    kn, vn = st.target.elts[0].id, st.target.elts[1].id
+                    read = {y.id for v in st.iter.func.value.values for y in ast.walk(v) if isinstance(y, ast.Name)}
+                    if any(isinstance(y, ast.Name) and isinstance(y.ctx, (ast.Store, ast.Del)) and y.id in read for b in st.body for y in ast.walk(b)):
+                        i += 1
+                        continue
+                    out = []
+                    rebinds = any(isinstance(y, ast.Name) and isinstance(y.ctx, (ast.Store, ast.Del)) and y.id in (kn, vn)
+                                  for b in st.body for y in ast.walk(b))
+                    used_after = any(isinstance(y, ast.Name) and y.id in (kn, vn) and isinstance(y.ctx, ast.Load)
+                                     and getattr(y, 'lineno', 0) > getattr(st, 'end_lineno', getattr(st, 'lineno', 0)) for y in ast.walk(fnode))
+                    for k, v in zip(st.iter.func.value.keys, st.iter.func.value.values):
+                        if rebinds or used_after:
+                            out.append(ast.Assign(targets=[ast.Name(id=kn, ctx=ast.Store())], value=copy.deepcopy(k)))
+                            out.append(ast.Assign(targets=[ast.Name(id=vn, ctx=ast.Store())], value=copy.deepcopy(v)))
+                            out.extend(copy.deepcopy(st.body))
+                        else:
+                            class S(ast.NodeTransformer):
+                                def visit_Name(self_, n):
+                                    if isinstance(n.ctx, ast.Load) and n.id == kn:
+                                        return ast.copy_location(copy.deepcopy(k), n)
+                                    if isinstance(n.ctx, ast.Load) and n.id == vn:
+                                        return ast.copy_location(copy.deepcopy(v), n)
+                                    return n
+                            out.extend(S().visit(b) for b in copy.deepcopy(st.body))
+                    for x in out:
+                        ast.copy_location(x, st)
+                        ast.fix_missing_locations(x)
+                    blk[i:i + 1] = out
+                    me.stats['dict_displays'] = me.stats.get('dict_displays', 0) + 1
+                    i += len(out)
+                    continue
+                i += 1
+
     def _display_algebra(self, fnode, cls, local):
         """Positional plumbing through short-lived sequences reads as the values themselves:
 
@@ -3799,7 +3987,14 @@ class _Normalizer:
     def _inlinable(self, fi) -> bool:
         node = fi.node
         a = node.args
-        if a.kwarg or a.kwonlyargs or a.posonlyargs:
+        if a.kwonlyargs:
+            return False
+        # ``**fields`` that is only read (spread into a display, looked up, iterated) is the dict of the surplus keywords of the call
+        if a.kwarg and any(isinstance(n, ast.Name) and n.id == a.kwarg.arg and isinstance(n.ctx, (ast.Store, ast.Del)) or
+                           isinstance(n, ast.Call) and isinstance(n.func, ast.Attribute) and isinstance(n.func.value, ast.Name)
+                           and n.func.value.id == a.kwarg.arg and n.func.attr in ('pop', 'update', 'setdefault', 'clear', 'popitem')
+                           or isinstance(n, ast.Subscript) and isinstance(n.ctx, (ast.Store, ast.Del)) and isinstance(n.value, ast.Name)
+                           and n.value.id == a.kwarg.arg for n in ast.walk(node)):
             return False
         if a.vararg and any(isinstance(n, ast.Name) and n.id == a.vararg.arg and isinstance(n.ctx, (ast.Store, ast.Del)) for n in ast.walk(node)):
             return False
@@ -3844,7 +4039,8 @@ class _Normalizer:
         self.counter += 1
         tag = '__h%d_' % self.counter
         node = fi.node
-        params = [x.arg for x in node.args.args]
+        posonly = [x.arg for x in node.args.posonlyargs]
+        params = posonly + [x.arg for x in node.args.args]
         binding: Dict[str, ast.expr] = {}
         if recv is not None:
             binding[params[0]] = recv
@@ -3852,6 +4048,26 @@ class _Normalizer:
         elif fi.kind == 'classmethod':
             return None
         if any(isinstance(x, ast.Starred) for x in call.args) or any(k.arg is None for k in call.keywords):
+            return None
+        kwname = node.args.kwarg.arg if node.args.kwarg else None
+        kw_prefix: List[ast.stmt] = []
+        if kwname is not None:
+            extra_kw = [k for k in call.keywords if k.arg not in params or k.arg in posonly]
+            kw_vals = []
+            for k in extra_kw:
+                if _is_simple_or_const(k.value) or (isinstance(k.value, ast.Subscript) and _is_simple(k.value.value)):
+                    kw_vals.append(k.value)
+                else:
+                    # evaluated at the call, before the body runs: a local of the expansion holds the value
+                    tmp_ = '%skw_%s' % (tag, k.arg)
+                    asg_ = ast.Assign(targets=[ast.Name(id=tmp_, ctx=ast.Store())], value=k.value)
+                    ast.copy_location(asg_, call)
+                    ast.fix_missing_locations(asg_)
+                    kw_prefix.append(asg_)
+                    kw_vals.append(ast.Name(id=tmp_, ctx=ast.Load()))
+            binding[kwname] = ast.Dict(keys=[ast.Constant(value=k.arg) for k in extra_kw], values=kw_vals)
+            call = ast.copy_location(ast.Call(func=call.func, args=call.args, keywords=[k for k in call.keywords if k not in extra_kw]), call)
+        if any(k.arg in posonly for k in call.keywords):
             return None
         va = node.args.vararg
         if len(call.args) > len(params):
@@ -3946,7 +4162,7 @@ class _Normalizer:
             if last.value is not None:
                 ret = last.value
         ast.copy_location(ret, call)
-        return prefix + body, ret
+        return kw_prefix + prefix + body, ret
 
     # ------------------------------------------------------------------ 1c. generator fusion
     def _fuse_in_function(self, fnode, cls, local):
